@@ -468,18 +468,7 @@ func (u *Unit) queryText(o *Obligation, extra []string, goal string) string {
 	b.WriteString("; obligation " + o.Name + " : " + strings.ReplaceAll(o.Src, "\n", " ") + "\n")
 	b.WriteString(goal)
 	b.WriteString("\n(check-sat)\n")
-	var vals []string
-	for _, in := range o.Inputs {
-		if in.Term.S != "" {
-			vals = append(vals, in.Term.S)
-			switch in.Term.Sort {
-			case "Bytes":
-				vals = append(vals, "(blen "+in.Term.S+")")
-			case "Slice":
-				vals = append(vals, "(slen "+in.Term.S+")")
-			}
-		}
-	}
+	vals := u.replayValueTerms()
 	if len(vals) > 0 {
 		b.WriteString("(get-value (" + strings.Join(vals, " ") + "))\n")
 	}
@@ -501,7 +490,7 @@ func discharge(u *Unit, o *Obligation, workDir string, timeout int, known []Know
 		o.Result = runQuery(workDir, o.Name, q, timeout, waitAll)
 		if o.Result.Status == "unknown" {
 			// a candidate counterexample from the quantifier-free part of the assumptions ...
-			cr, ok := candidateModel(workDir, o.Name, q)
+			cr, ok := candidateModel(workDir, o.Name, q, u.smallModelHints())
 			if ok {
 				o.Candidate = &cr
 			}
